@@ -18,7 +18,7 @@ ASSUMPTIONS = [
     "in direction and distance, which is the 'floating-point representation of the grid' the statement allows",
     "grid membership: accepted == k*tick exactly over the rationals when the tick is a power of two, else |accepted - k*tick| <= 4 ulp(accepted)",
 ]
-TICKS = [1.0, 2.0, 0.5, 0.25, 0.125, 10.0, 3.0, 0.1, 0.01, 0.05, 1e-5, 7.0, 0.3, 1024.0, 2.0 ** -10, 0.2, 100.0]
+TICKS = [1.0, 2.0, 0.5, 0.25, 0.125, 10.0, 3.0, 0.1, 0.01, 0.05, 1e-5, 7.0, 0.3, 1024.0, 2.0 ** -10, 0.2, 100.0, 1, 5, 100]
 REQUIRED = {
     "quick": {"acceptances": 50000, "class/off_grid_buy": 5000, "class/off_grid_sell": 5000, "class/on_grid": 5000,
               "class/near_grid_ulp": 3000, "class/power_of_two_tick_exact": 5000, "class/runner_offgrid": 50,
